@@ -147,6 +147,11 @@ Declarator(base, toks, i, fieldnames, consts, tab) ==
   IN IF ~IsId(toks, s) THEN [ok |-> FALSE, name |-> "", type |-> base, i |-> i]
      ELSE [ok |-> TRUE, name |-> toks[s].s, type |-> Dims(Stars(base, s - i), toks, s + 1, d - 1, fieldnames, consts, tab), i |-> d]
 
+RECURSIVE FoldedNames(_)
+FoldedNames(t) == UNION {(IF t.fields[j].name = "" THEN {} ELSE {t.fields[j].name})
+                         \cup (IF t.fields[j].anon /\ t.fields[j].type.k \in {"struct", "union"} THEN FoldedNames(t.fields[j].type) ELSE {})
+                         : j \in 1..Len(t.fields)}
+
 \* ---------------------------------------------------------------- composite bodies
 \* st = [tab, consts]; result [ok, fields, i] with i after the closing '}'
 RECURSIVE Body(_, _, _, _, _, _), Composite(_, _, _)
@@ -159,7 +164,8 @@ Body(toks, i0, st, fields, names, self) ==
        LET c == Composite(toks, i, st) IN
        IF ~c.ok THEN [ok |-> FALSE, fields |-> fields, i |-> i]
        ELSE IF IsP(toks, c.i, ";")
-       THEN Body(toks, c.i + 1, st, Append(fields, [name |-> "", type |-> c.type, bits |-> 0, anon |-> TRUE]), names, self)
+       THEN \* (the members of an anonymous member are members of this structure: their names keep a count from being a constant)
+            Body(toks, c.i + 1, st, Append(fields, [name |-> "", type |-> c.type, bits |-> 0, anon |-> TRUE]), names \cup FoldedNames(c.type), self)
        ELSE LET d == Declarator(c.type, toks, c.i, names, st.consts, st.tab) IN
             IF ~d.ok \/ ~IsP(toks, d.i, ";") THEN [ok |-> FALSE, fields |-> fields, i |-> i]
             ELSE Body(toks, d.i + 1, st, Append(fields, [name |-> d.name, type |-> d.type, bits |-> 0, anon |-> FALSE]), names \cup {d.name}, self)
